@@ -36,25 +36,51 @@ const (
 func main() {
 	r := common.Start("C06", "model_checking")
 	b := triex.TierBounds(r.Thorough())
+	// a C06 case costs ~3x a C05 case (four rewriting calls, string building in the oracle):
+	// one letter less on the {a,b,c} texts, and on the {a,b} texts of the thorough tier
+	b.ABCText--
+	if r.Thorough() {
+		b.ABText--
+	}
 	fams := triex.Families(b)
 	global := triex.NewCollector()
 	tot := &triex.Totals{}
+	finish := func() {
+		global.Flush(r)
+		r.Cov("cases_with_region_of_2+_occurrences", tot.Extra[xMerged])
+		r.Cov("cases_text_not_valid_utf8", tot.Extra[xInvalid])
+		r.Cov("regions_total", tot.Extra[xRegions])
+		r.Assume(assumptions...)
+		r.Finish(rule)
+	}
+	triex.Watch(func(reason string, v *triex.Visit, in *string) {
+		entry, input := "Insert+BuildFailureLinks", ""
+		if in != nil {
+			entry, input = "Replace/ReplaceWithMask", *in
+		}
+		r.Violation(entry+"|no-termination|"+v.Oracle.KeyClass(input),
+			fmt.Sprintf("%s on text %q %s", entry, input, reason), v.Case("text", input, nil),
+			"func TestReplay(t *testing.T) {\n"+triex.GoSetup(v.Set, v.Hist)+fmt.Sprintf("\tin := %q\n\ttr.Replace(in, \"#\"); tr.ReplaceWithMask(in, '*')\n}", input))
+		r.Incomplete("aborted by the watchdog: " + reason)
+		finish()
+	})
 	for i, f := range fams {
 		f.Keys = nil
 		f.Run(r, i, global, tot, visit)
 		sample(r, f)
 	}
-	global.Flush(r)
-	r.Cov("cases_with_region_of_2+_occurrences", tot.Extra[xMerged])
-	r.Cov("cases_text_not_valid_utf8", tot.Extra[xInvalid])
-	r.Cov("regions_total", tot.Extra[xRegions])
-	r.Assume("small-scope: bounds per family are listed in coverage.sections; outside: longer patterns, larger pattern sets, longer texts",
-		"patterns are valid UTF-8; replacement is \"#\" (in no alphabet, so the output parses unambiguously) or \"\"; mask is '*' or '＊'",
-		"Replace may emit between 1 and #occurrences copies of the replacement per maximal covered region",
-		"on text that is not valid UTF-8 only 'returns without panicking' is demanded",
-		"a case is one (family, pattern set, insertion history, text) with Replace(\"#\"), Replace(\"\") and ReplaceWithMask")
-	r.Finish("every (pattern set, history, text) of each family is enumerated once (no sampling); non-trivial = the text contains >= 1 occurrence of a non-empty inserted pattern (>= 1 covered region)")
+	finish()
 }
+
+var assumptions = []string{
+	"small-scope: bounds per family are listed in coverage.sections; outside: longer patterns, larger pattern sets, longer texts",
+	"patterns are valid UTF-8; replacement is \"#\" (in no alphabet, so the output parses unambiguously) or \"\"; mask is '*' or '＊'",
+	"Replace may emit between 1 and #occurrences copies of the replacement per maximal covered region",
+	"on text that is not valid UTF-8 only 'returns without panicking' is demanded",
+	"a case is one (family, pattern set, insertion history, text) with Replace(\"#\"), Replace(\"\") and ReplaceWithMask",
+}
+
+const rule = "every (pattern set, history, text) of each family is enumerated once (no sampling); non-trivial = the text contains >= 1 occurrence of a non-empty inserted pattern (>= 1 covered region)"
 
 func sample(r *common.Run, f *triex.Family) {
 	if len(f.Sets) == 0 || len(f.Texts) == 0 {
@@ -150,9 +176,19 @@ func validClass(o *triex.Oracle, t *triex.Text) string {
 func visit(sh *triex.Shard, v *triex.Visit) {
 	o, tr := v.Oracle, v.Trie
 	masks := []rune{'*'}
+	// the closures handed to Try are created once per trie, not once per text (hot loop)
+	var (
+		text, out string
+		mask      rune
+	)
+	callHash := func() { out = tr.Replace(text, "#") }
+	callEmpty := func() { out = tr.Replace(text, "") }
+	callMask := func() { out = tr.ReplaceWithMask(text, mask) }
+	setup := func() string { return "func TestReplay(t *testing.T) {\n" + triex.GoSetup(v.Set, v.Hist) }
 	for ti := range v.Fam.Texts {
 		t := &v.Fam.Texts[ti]
-		text := t.S
+		text = t.S
+		sh.At(&t.S)
 		sh.Ev++
 		regs := o.Regions(text, sh.Cov, sh.Regs)
 		sh.Regs = regs[:0]
@@ -170,11 +206,8 @@ func visit(sh *triex.Shard, v *triex.Visit) {
 		if !t.Valid {
 			sh.Extra[xInvalid]++
 		}
-		setup := func() string { return "func TestReplay(t *testing.T) {\n" + triex.GoSetup(v.Set, v.Hist) }
-
 		// ---- Replace with "#"
-		var out string
-		if triex.Try(func() { out = tr.Replace(text, "#") }) {
+		if triex.Try(callHash) {
 			sh.Col.Report("Replace|panic|"+validClass(o, t), v.Size(text), func() (string, any, string) {
 				site, st := triex.PanicInfo(func() { tr.Replace(text, "#") })
 				return fmt.Sprintf("Replace(%q, \"#\") panicked at %s; want %s", text, site, shape(text, regs)),
@@ -201,7 +234,7 @@ func visit(sh *triex.Shard, v *triex.Visit) {
 		}
 
 		// ---- Replace with ""
-		if triex.Try(func() { out = tr.Replace(text, "") }) {
+		if triex.Try(callEmpty) {
 			sh.Col.Report("Replace|panic|"+validClass(o, t), v.Size(text), func() (string, any, string) {
 				site, st := triex.PanicInfo(func() { tr.Replace(text, "") })
 				return fmt.Sprintf("Replace(%q, \"\") panicked at %s; want %q", text, site, kept(text, regs)),
@@ -223,8 +256,8 @@ func visit(sh *triex.Shard, v *triex.Visit) {
 		if o.Multi || !t.ASCII {
 			masks = append(masks, '＊')
 		}
-		for _, mask := range masks {
-			if triex.Try(func() { out = tr.ReplaceWithMask(text, mask) }) {
+		for _, mask = range masks {
+			if triex.Try(callMask) {
 				sh.Col.Report("ReplaceWithMask|panic|"+validClass(o, t), v.Size(text), func() (string, any, string) {
 					site, st := triex.PanicInfo(func() { tr.ReplaceWithMask(text, mask) })
 					w := "no panic"
